@@ -204,6 +204,35 @@ struct Stats {
     builds: AtomicU64,
 }
 
+/// a sync session or its async twin (cfg "async:<term>")
+pub enum AnySession {
+    S(Session),
+    A(crate::aworld::ASession),
+}
+impl AnySession {
+    pub fn init_event(&mut self) -> Value {
+        match self {
+            AnySession::S(s) => s.init_event(),
+            AnySession::A(a) => a.init_event(),
+        }
+    }
+    pub fn step(&mut self, op: &Op) -> Value {
+        match self {
+            AnySession::S(s) => s.step(op),
+            AnySession::A(a) => a.step(op),
+        }
+    }
+}
+pub fn new_any_session(lts: &Lts, o: &WalkOpts, s: &Snap, rng: &mut StdRng) -> AnySession {
+    if let Some(cfg) = o.cfg.strip_prefix("async:") {
+        let a = crate::aworld::ASession::new(cfg, &o.names, o.b, &lts.universe);
+        a.populate_state(s);
+        AnySession::A(a)
+    } else {
+        AnySession::S(new_session(lts, o, s, rng))
+    }
+}
+
 pub fn new_session(lts: &Lts, o: &WalkOpts, s: &Snap, rng: &mut StdRng) -> Session {
     let mut sess = Session::new(&o.cfg, &o.names, o.b, &lts.universe);
     sess.light = o.light;
@@ -242,8 +271,10 @@ fn fast_check(lts: &Lts, e: &Edge, ev: &Value, sup: &[&str]) -> (bool, Option<us
 
 pub fn run_walk(lts: Arc<Lts>, o: Arc<WalkOpts>) -> Value {
     let stats = Arc::new(Stats { distinct: Default::default(), edges_run: AtomicU64::new(0), fast_disagree: AtomicU64::new(0), builds: AtomicU64::new(0) });
-    let term = parse(&o.cfg);
-    let sup: Vec<&'static str> = term.sup();
+    let sup: Vec<&'static str> = match o.cfg.strip_prefix("async:") {
+        Some(c) => crate::aworld::asup(&parse(c)),
+        None => parse(&o.cfg).sup(),
+    };
     let mut handles = vec![];
     for t in 0..o.threads {
         let lts = lts.clone();
@@ -269,11 +300,11 @@ pub fn run_walk(lts: Arc<Lts>, o: Arc<WalkOpts>) -> Value {
                         }
                         let s = &lts.states[si];
                         // (1) edges that leave the state unchanged according to the model, back to back
-                        let mut sess: Option<Session> = None;
+                        let mut sess: Option<AnySession> = None;
                         for e in lts.edges[si].iter() {
                             if e.to == si {
                                 if sess.is_none() {
-                                    let mut ns = new_session(&lts, &o, s, &mut rng);
+                                    let mut ns = new_any_session(&lts, &o, s, &mut rng);
                                     stats.builds.fetch_add(1, Ordering::Relaxed);
                                     let init = ns.init_event();
                                     let ok = snap_of(&init["obs"]) == *s;
@@ -302,7 +333,7 @@ pub fn run_walk(lts: Arc<Lts>, o: Arc<WalkOpts>) -> Value {
                         // (2) edges that change the state: fresh construction for each
                         for e in lts.edges[si].iter() {
                             if e.to != si {
-                                let mut ns = new_session(&lts, &o, s, &mut rng);
+                                let mut ns = new_any_session(&lts, &o, s, &mut rng);
                                 stats.builds.fetch_add(1, Ordering::Relaxed);
                                 let init = ns.init_event();
                                 let ok = snap_of(&init["obs"]) == *s;
@@ -351,8 +382,7 @@ pub fn run_walk(lts: Arc<Lts>, o: Arc<WalkOpts>) -> Value {
                             if rng.gen_bool(1.0 - o.frac.min(1.0)) {
                                 continue;
                             }
-                            let mut sess = Session::new(&o.cfg, &o.names, o.b, &lts.universe);
-                            sess.light = o.light;
+                            let mut sess = new_any_session(&lts, &o, &lts.states[s0], &mut rng);
                             out.begin(&sess.init_event());
                             let mut cur = s0;
                             for &ei in &path {
@@ -380,7 +410,7 @@ pub fn run_walk(lts: Arc<Lts>, o: Arc<WalkOpts>) -> Value {
                         // start state: empty, or (overlay, split) a random state distributed over the layers
                         let si = if o.split && rng.gen_bool(0.7) { rng.gen_range(0..lts.states.len()) } else { lts.index[&lts.states[0]] };
                         let s = lts.states[si].clone();
-                        let mut sess = new_session(&lts, &o, &s, &mut rng);
+                        let mut sess = new_any_session(&lts, &o, &s, &mut rng);
                         let init = sess.init_event();
                         let ok = snap_of(&init["obs"]) == s;
                         out.begin(&init);
@@ -419,7 +449,7 @@ pub fn run_walk(lts: Arc<Lts>, o: Arc<WalkOpts>) -> Value {
                         let nonempty: Vec<usize> = (0..lts.states.len()).filter(|&i| lts.states[i].iter().any(|n| n[0] != 0)).collect();
                         let si = *nonempty.choose(&mut rng).unwrap();
                         let s = lts.states[si].clone();
-                        let mut sess = new_session(&lts, &o, &s, &mut rng);
+                        let mut sess = new_any_session(&lts, &o, &s, &mut rng);
                         let init = sess.init_event();
                         let ok = snap_of(&init["obs"]) == s;
                         out.begin(&init);
@@ -431,7 +461,7 @@ pub fn run_walk(lts: Arc<Lts>, o: Arc<WalkOpts>) -> Value {
                         let mut cur = si;
                         let mut alive = true;
                         // run one edge selected by (op, p[, c]); returns false when the walk must stop
-                        let mut run = |cur: &mut usize, sess: &mut Session, out: &mut TraceOut, fast: &mut Vec<Value>, op: &str, p: &Vec<String>, c: Option<&Vec<i64>>| -> bool {
+                        let mut run = |cur: &mut usize, sess: &mut AnySession, out: &mut TraceOut, fast: &mut Vec<Value>, op: &str, p: &Vec<String>, c: Option<&Vec<i64>>| -> bool {
                             let e = match lts.edges[*cur].iter().find(|e| e.op.op == op && &e.op.p == p && c.map(|c| &e.op.c == c).unwrap_or(true)) {
                                 Some(e) => e,
                                 None => return true, // not an edge of the bounded model from here (contents bound): skip
